@@ -238,7 +238,7 @@ func genD(t *rapid.T) hcfg.D {
 	return d
 }
 
-var mutants = []string{"zero-step-crontab", "unknown-top-field", "unknown-schedule-field", "unknown-kubernetes-field", "unknown-validating-field", "unknown-matchcondition-field", "onStartup-string", "schedule-object", "allowFailure-string", "bad-crontab", "include-unknown", "include-ambiguous", "selector-operator", "version-v2", "missing-kind", "missing-crontab", "missing-validating-name", "bad-interval", "bad-watch-event", "bad-field-operator", "validating-name-not-qualified", "duplicate-validating-name", "empty-schedule-list", "empty-includes"}
+var mutants = []string{"zero-step-crontab", "unknown-top-field", "unknown-schedule-field", "unknown-kubernetes-field", "unknown-validating-field", "unknown-matchcondition-field", "invalid-selector-kubernetes", "invalid-selector-validating", "invalid-selector-mutating", "invalid-ns-selector-validating", "invalid-ns-selector-mutating", "onStartup-string", "schedule-object", "allowFailure-string", "bad-crontab", "include-unknown", "include-ambiguous", "selector-operator", "version-v2", "missing-kind", "missing-crontab", "missing-validating-name", "bad-interval", "bad-watch-event", "bad-field-operator", "validating-name-not-qualified", "duplicate-validating-name", "empty-schedule-list", "empty-includes"}
 
 func gen(t *rapid.T) Case {
 	c := Case{D: genD(t)}
@@ -365,6 +365,22 @@ func mutate(m map[string]any, mutant string, near string) bool {
 			return false
 		}
 		k["labelSelector"] = map[string]any{"matchExpressions": []any{map[string]any{"key": "a", "operator": "Like", "values": []any{"x"}}}}
+	case "invalid-selector-kubernetes", "invalid-selector-validating", "invalid-selector-mutating", "invalid-ns-selector-validating", "invalid-ns-selector-mutating":
+		// selectors that pass the schema but are not valid label selectors: In without values, Exists with values
+		key := map[string]string{"kubernetes": "kubernetes", "validating": "kubernetesValidating", "mutating": "kubernetesMutating"}[mutant[strings.LastIndex(mutant, "-")+1:]]
+		b, ok := first(m, key)
+		if !ok {
+			return false
+		}
+		bad := map[string]any{"matchExpressions": []any{map[string]any{"key": "a", "operator": "In"}}}
+		if len(near)%2 == 1 {
+			bad = map[string]any{"matchExpressions": []any{map[string]any{"key": "a", "operator": "Exists", "values": []any{"x"}}}}
+		}
+		if strings.HasPrefix(mutant, "invalid-ns-selector") {
+			b["namespace"] = map[string]any{"labelSelector": bad}
+		} else {
+			b["labelSelector"] = bad
+		}
 	case "version-v2":
 		m["configVersion"] = "v2"
 	case "missing-kind":
